@@ -182,7 +182,8 @@ def execute(case, out):
             elif kind[0] == 'bundle' and kind[1] == data:
                 whole.append(dg)
         where = 'bundle %d octets, mtu %s, transfer %s' % (len(data), mtu, bid)
-        if mtu is None or len(data) < mtu:
+        if mtu is None or len(data) <= mtu:
+            # it fits (also when it is exactly as large as the MTU): one datagram
             if len(whole) != 1 or segs:
                 out.fail('unsegmented-count', 'expected the bundle in one datagram, saw %d whole and %d segments (%s)' % (len(whole), len(segs), where))
             continue
